@@ -367,6 +367,14 @@ def template_provenance(repo, fi, recv):
   if isinstance(recv, ast.Call) and call_tail(recv) == 'HeritageAwareString' and \
       recv.args and const_str(recv.args[0]) is not None:
     return True, 'literal template'
+  # a named constant of the code (module / class level, or a single-definition
+  # local) whose definition is a string literal
+  if isinstance(recv, (ast.Name, ast.Attribute)):
+    r2 = tables.resolve(recv)
+    if r2 is not recv and isinstance(r2, (ast.Constant, ast.JoinedStr)) and (
+        not isinstance(r2, ast.Constant) or isinstance(r2.value, str)):
+      if not isinstance(r2, ast.JoinedStr) or all(isinstance(v, ast.Constant) for v in r2.values):
+        return True, 'named literal template'
   # a local assigned only from string literals
   if isinstance(recv, ast.Name):
     v = None
@@ -479,13 +487,14 @@ def scanner_literal_agreement(chk, rid):
   the scanner and for the literal parser."""
   repo = chk.repo
   tv = FnView(repo, 'parse.Traverse')
+  state_expr = K.scanner_state_expr(tv.fi.node)
   escaping_states = set()
   for n in tv.cfg.stmt_nodes():
     st = tv.cfg.stmt[n]
     if isinstance(st, ast.AugAssign) and dotted(st.target) == 'state' and \
         const_str(st.value) == '\\':
       for e, val in tv.guards(n):
-        if val and isinstance(e, ast.Compare) and norm(e.left) == 'State()':
+        if val and isinstance(e, ast.Compare) and norm(e.left) == state_expr:
           c0 = e.comparators[0]
           if isinstance(e.ops[0], ast.Eq) and const_str(c0) is not None:
             escaping_states.add(const_str(c0))
